@@ -119,7 +119,11 @@ def finish(res, tier, seed, t0, extra_cov=None):
     """print report lines, write evidence and replay files, return exit code"""
     os.makedirs(EVIDENCE_DIR, exist_ok=True)
     known = load_known()
-    open_keys = {k["key"]: k for k in known if k.get("status") == "finding" and k["property"] == res.prop}
+    open_keys = {}
+    for k in known:
+        if k.get("status") == "finding" and k["property"] == res.prop:
+            for kk in ([k["key"]] if "key" in k else []) + list(k.get("keys", [])):
+                open_keys[kk] = k
     # de-duplicate by key
     seen = {}
     for v in res.violations:
